@@ -1587,7 +1587,7 @@ func runC17(env *vk.Env) {
 
 // ---------------------------------------------------------------- leg B generators (inputs only)
 
-var chTokens = []string{"", "ab", "a\"\\b", "§cx", "x§ly", "§zx", "5% %s", "§kx", "§Cx", "é§r!", "<&>", "%d%%", "   z", "tab\there", "§", "§§a§"}
+var chTokens = []string{"", "ab", "a\"\\b", "§cx", "x§ly", "§zx", "5% %s", "§kx", "§Cx", "é§r!", "<&>", "%d%%", "   z", "tab\there", "§", "§§a§", "T=300 §\u212a §cred", "§\u212a", "§\u017f§\u0130x"} // U+212A KELVIN SIGN folds to k under (?i)
 
 func chRandString(rng *rand.Rand) string {
 	if rng.Intn(3) != 0 {
@@ -1598,7 +1598,11 @@ func chRandString(rng *rand.Rand) string {
 		switch rng.Intn(8) {
 		case 0:
 			sb.WriteString("§")
-			sb.WriteByte("0123456789abcdefklmnorzZxCKLR "[rng.Intn(30)])
+			if rng.Intn(6) == 0 { // a non-ASCII character right after the section sign (some fold to ASCII letters)
+				sb.WriteRune([]rune{0x212A, 0x017F, 0x0130, 0x0131, 'é', '世', 0xFF21, 0x1F600}[rng.Intn(8)])
+			} else {
+				sb.WriteByte("0123456789abcdefklmnorzZxCKLR "[rng.Intn(30)])
+			}
 		case 1:
 			sb.WriteRune([]rune{'é', 'ß', '€', '世', '"', '\\', '%', '/', '\n', 0x1F600}[rng.Intn(10)])
 		default:
